@@ -83,17 +83,20 @@ theorem facts_draw_down (ah h gap i cursor H : Int) (wants : Bool) :
   cases wants <;> rfl
 
 /-- The cursor gutter and the wants-cursor block index the children with `d.cursor - d.scroll.top`
-    (a `uint` subtraction: `DynList.usub`), guarded by `d.cursor >= d.scroll.top && int(idx) < len`
-    resp. `int(idx) < len` (`DynList.cursorChild`, `DynList.gutter`). -/
+    (a `uint` subtraction: `DynList.usub`), guarded by `d.cursor >= d.scroll.top && idx < uint(len)`
+    resp. `idx < uint(len)` — both compared as `uint` (repair F119h; `DynList.cursorChild`, `gutter`). -/
 theorem facts_cursor_index (cursor top idx len : Int) :
     evalI [("d.cursor", cursor), ("d.scroll.top", top)] (rhsOf draw .define (.var "v14")) = some (cursor - top) ∧
     evalI [("d.cursor", cursor), ("d.scroll.top", top)] (rhsOf draw .define (.var "v19")) = some (cursor - top) ∧
     (condsOf draw .ifS)[11]?.bind (evalB [("d.cursor", cursor), ("d.scroll.top", top), ("v14", idx), ("len", len)])
       = some (decide (cursor ≥ top) && decide (idx < len)) ∧
+    (condsOf draw .ifS)[11]? = some (.bin "&&" (.bin ">=" (.var "d.cursor") (.var "d.scroll.top"))
+        (.bin "<" (.var "v14") (.arg (.call (.var "uint")) (.arg (.call (.var "len")) (.var "v1.Children"))))) ∧
+    (condsOf draw .ifS)[13]? = some (.bin "<" (.var "v19") (.arg (.call (.var "uint")) (.arg (.call (.var "len")) (.var "v1.Children")))) ∧
     (condsOf draw .ifS)[13]?.bind (evalB [("v19", idx), ("len", len)]) = some (decide (idx < len)) ∧
     rhsOf draw .define (.var "v15") = .index (.var "v1.Children") (.var "v14") ∧
     rhsOf draw .define (.var "v20") = .index (.var "v1.Children") (.var "v19") :=
-  ⟨rfl, rfl, rfl, rfl, rfl, rfl⟩
+  ⟨rfl, rfl, rfl, rfl, rfl, rfl, rfl, rfl⟩
 
 /-- The wants-cursor block (`DynList.reveal`): `bRow := row + int(height)`; if `bRow > H` every child
     moves by `H - bRow`; else if `row < 0` every child moves by `-row`; then the flag is cleared. -/
@@ -171,18 +174,18 @@ theorem facts_wheel (s : DynList.St) :
 
 `Model/DynInterp.lean` runs a regenerated method body directly (assignments to the scroll state with
 `uint` wrap-around, `if` blocks, `return`, the Builder call, the call of `ensureScroll`).  For every
-state (cursor below 2^63) and every builder the result is the function `Model/DynList.lean` defines. -/
+state (every `uint` cursor, wrap-around at 2^64 included) and every builder the result is the function `Model/DynList.lean` defines. -/
 
 open VaxisModel.Model.DynInterp in
 /-- `ensureScroll`, interpreted = `DynList.ensureScroll`. -/
-theorem interp_ensureScroll (hs : List Nat) (s : DynList.St) (hc : s.cursor < 2 ^ 63) :
+theorem interp_ensureScroll (hs : List Nat) (s : DynList.St) (hc : s.cursor < 2 ^ 64) :
     (runMethod hs ensureScroll ensureScroll s 0).map (·.st) = some (DynList.ensureScroll s) := by
   rw [skeleton_ensureScroll]
-  exact Lemmas.DynInterp.ensureScroll_run hs s (by omega) 0
+  exact Lemmas.DynInterp.ensureScroll_run hs s hc 0
 
 open VaxisModel.Model.DynInterp in
 /-- `SetCursor(c)`, interpreted = `DynList.setCursor`; `SetPendingScroll(k)` = `DynList.setPending`. -/
-theorem interp_setters (hs : List Nat) (s : DynList.St) (c : Nat) (hc : c < 2 ^ 63) (k : Int) :
+theorem interp_setters (hs : List Nat) (s : DynList.St) (c : Nat) (hc : c < 2 ^ 64) (k : Int) :
     (runMethod hs ensureScroll setCursor s c).map (·.st) = some (DynList.setCursor s c) ∧
     (runMethod hs ensureScroll setPendingScroll s k).map (·.st) = some (DynList.setPending s k) := by
   rw [skeleton_ensureScroll, skeleton_setters.1, skeleton_setters.2.1]
@@ -191,7 +194,7 @@ theorem interp_setters (hs : List Nat) (s : DynList.St) (c : Nat) (hc : c < 2 ^ 
 open VaxisModel.Model.DynInterp in
 /-- `NextItem` / `PrevItem`, interpreted on any builder = `DynList.nextItem` / `prevItem` (new state and
     whether a command is returned). -/
-theorem interp_next_prev (hs : List Nat) (s : DynList.St) (hc : s.cursor < 2 ^ 63) :
+theorem interp_next_prev (hs : List Nat) (s : DynList.St) (hc : s.cursor < 2 ^ 64) :
     (runMethod hs ensureScroll nextItem s 0).map (fun r => (r.st, r.ret)) =
       some ((DynList.nextItem hs s).1, some (DynList.nextItem hs s).2) ∧
     (runMethod hs ensureScroll prevItem s 0).map (fun r => (r.st, r.ret)) =
